@@ -205,7 +205,7 @@ func runC01(p *core.Prog, r *core.Report, tier string) {
 				r.Check(w == nil, "C01.i", fmt.Sprintf("%s|one-request#%d", core.FnKey(f), i+1), p.Pos(site.Pos()), "no second signature request can follow this one in the same run", "a second signature request for the same duty can follow this one (retry / per-account re-signing): the signer is all-or-nothing towards its caller but may already have signed, so validators are asked to sign twice in the epoch", p.WitnessText(w)...)
 			}
 		}
-		r.Floor("C01.i signature request sites", nReq, 2)
+		r.Floor("C01.i signature request sites", nReq, 1)
 	}
 
 	// ---- (j) the accounts asked to sign are the ones the filter let through: the account managers' by-index lookups
